@@ -191,7 +191,7 @@ func (u *Unit) loadCell(st *State, c *Cell) Val {
 	}
 	var v Val
 	if c.Sym {
-		v = u.freshVal(st, c.T, c.Name, true)
+		v = u.freshVal(st, c.T, c.Name, c.Old)
 	} else {
 		v = u.zeroVal(c.T)
 	}
